@@ -243,6 +243,18 @@ def run(F, rep):
             n2, a2, t2, _ = audit_scope(F, rest, rep, table, armed=False)
             rep.stat("overflow_sites_outside_live_scope", n2)
         prio_rule(F, rep)
+        # (FILE) the wholesale discharge of 64-bit length/offset arithmetic rests on a physical bound that values read from a file do
+        # not obey: the arithmetic of the open path on file-derived values is audited with guards in C14 and is part of this property
+        from rules import c14
+        sub = type(rep)(rep.pid, rep.tier)
+        sub.cfg = getattr(rep, "cfg", "dev")
+        c14.run(F, sub)
+        nf = 0
+        for o in sub.obligations:
+            if o["rule"] in ("C14-AUDIT", "C14-MISS") and re.search(r"^(Add|Sub|Mul|Shl|Shr|Neg|divzero|bounds)", o["instance"]):
+                nf += 1
+                rep.ob("C18-FILE", o["instance"], o["ok"], detail=o["detail"], site=o["site"], how=o["how"], key=o["key"].replace(o["rule"], "C18-FILE"))
+        rep.floor("C18-FILE", nf, 5, "arithmetic / bounds sites of the open path on file-derived values (shared with C14)")
         # O3: debug-only code
         nd = 0
         for k in sorted(live):
